@@ -49,6 +49,17 @@ def main():
         finally:
             sh(f"git -C /repo worktree remove --force {wt}")
     out = os.path.join(VERIF, "mutants", "REVERTED_FIXES.md")
+    # a partial run (some properties only) keeps the rows of the other fixes from the existing file
+    done = {(r[0], r[1]) for r in rows}
+    order = [(f["property"], f["commit"]) for f in entries]
+    try:
+        for line in open(out):
+            c = [x.strip() for x in line.strip().strip("|").split(" | ")]
+            if len(c) == 5 and c[0].startswith("C") and c[0][1:].isdigit() and (c[0], c[1]) not in done and (c[0], c[1]) in order:
+                rows.append(tuple(c))
+    except FileNotFoundError:
+        pass
+    rows.sort(key=lambda r: order.index((r[0], r[1])) if (r[0], r[1]) in order else 10**6)
     with open(out, "w") as fh:
         fh.write("# Every `fix:` commit reverse-applied in a scratch worktree, quick check of its property (must exit 1)\n\n")
         fh.write("| property | fix commit | quick check on the reverted tree | first failure class | defect |\n|---|---|---|---|---|\n")
